@@ -25,8 +25,11 @@ def rand_elf(rng, clean=None, file_safe=False, want=None):
     (no truncation/overlap/damage), else None.  file_safe: keep every offset/size small (for images read through a real file)."""
     if clean is None: clean = rng.random() < 0.5
     cap, enc = rng.choice([1, 2]), rng.choice([1, 2])
-    if want == "armhf": cap, enc = 1, 1
-    if want == "i686": cap, enc = 1, 1
+    if want in ("armhf", "i686"):
+        cap, enc = 1, 1
+        r = rng.random()
+        if r < 0.12: enc = 2            # right machine, wrong endianness
+        elif r < 0.2: cap = 2           # right machine, wrong class
     wide = 0xFFFFFFFFFFFFFFFF if cap == 2 else 0xFFFFFFFF
     machine = rng.choice(MACHINES) if rng.random() < 0.8 else rng.randrange(65536)
     flags = rng.choice(ARM_FLAGS) if rng.random() < 0.7 else rng.randrange(2 ** 32)
